@@ -156,7 +156,7 @@ class CompositeType(SerializableType):
     @property
     def name_components(self) -> typing.List[str]:
         """Components of the full name as a list, e.g., ``['uavcan', 'node', 'Heartbeat']``."""
-        return self._name_components
+        return self._name_components[:]  # Return copy to prevent mutation
 
     @property
     def namespace_components(self) -> typing.List[str]:
